@@ -48,6 +48,10 @@ fn one(sub: &str, recs: &[Vec<u8>], empty_file: bool, k: usize, w: usize) -> Opt
         }
     };
     let mut why = why;
+    if why.is_empty() && (sub == "oligo-batch" || sub == "oligo-mmap" || sub == "oligocgr" || sub == "cov") {
+        let t = if sub == "cov" { std::fs::read_to_string(format!("{}/kmers.vectors", outd)).unwrap_or_default() } else { std::fs::read_to_string(&out).unwrap_or_default() };
+        if t.contains("NaN") || t.contains("inf") || t.contains('\0') { why = "a row holds NaN / inf / unwritten bytes instead of zeros".to_string(); }
+    }
     if why.is_empty() && (sub == "s2m" || sub == "m2s") {
         let t = std::fs::read_to_string(&out).unwrap_or_default();
         // the placeholder u64::MAX renders as k T's through numeric_to_kmer (all bits set); real minimisers are canonical so never all-T unless k-mer is TTTT.. (whose canonical form is AAAA..)
